@@ -44,6 +44,7 @@ type Svc struct {
 	maxInfl  map[string]int
 	release  chan struct{}
 	released bool
+	gate     chan struct{} // "gate" requests park here until OpenGate
 	// OnRequest, if set, runs (without the lock) after request number n (1-based,
 	// counted since the last ResetCount) has been logged and before it is answered.
 	OnRequest func(n int, name string)
@@ -111,6 +112,19 @@ func (s *Svc) Release() {
 	}
 	s.mu.Unlock()
 }
+
+// OpenGate lets every request parked by a {Kind:"gate"} behaviour proceed (and answer normally).
+func (s *Svc) OpenGate() {
+	s.mu.Lock()
+	if s.gate != nil {
+		close(s.gate)
+		s.gate = nil
+	}
+	s.mu.Unlock()
+}
+
+// InFlight reports how many requests for name are being served right now.
+func (s *Svc) InFlight(name string) int { s.mu.Lock(); defer s.mu.Unlock(); return s.inflight[name] }
 
 func (s *Svc) Log() []Req { s.mu.Lock(); defer s.mu.Unlock(); return append([]Req{}, s.log...) }
 func (s *Svc) LogLen() int { s.mu.Lock(); defer s.mu.Unlock(); return len(s.log) }
@@ -181,6 +195,22 @@ func (s *Svc) do(ctx context.Context, op, name string, old api.SecretVersion) (*
 	case "denied":
 		finish("error:denied", nil)
 		return nil, api.ErrAccessDenied
+	case "gate":
+		s.mu.Lock()
+		if s.gate == nil {
+			s.gate = make(chan struct{})
+		}
+		g := s.gate
+		s.mu.Unlock()
+		select {
+		case <-ctx.Done():
+			finish("error:ctx", nil)
+			return nil, fmt.Errorf("fake service: %w", ctx.Err())
+		case <-s.release:
+			finish("error:released", nil)
+			return nil, errors.New("fake service: released by harness")
+		case <-g:
+		}
 	case "hang":
 		select {
 		case <-ctx.Done():
@@ -247,6 +277,9 @@ type Cache struct {
 	nWrite    int
 	FailRead  bool
 	FailWrite map[int]bool // 1-based write numbers that fail
+	// OnWrite, if set, is called at the start of every Write (before anything is stored) with
+	// the 1-based number of the call; it may block to model a slow disk.
+	OnWrite func(n int)
 }
 
 func NewCache(initial []byte) *Cache {
@@ -255,9 +288,16 @@ func NewCache(initial []byte) *Cache {
 
 func (c *Cache) Write(b []byte) error {
 	c.mu.Lock()
-	defer c.mu.Unlock()
 	c.nWrite++
-	if c.FailWrite[c.nWrite] {
+	n, hook := c.nWrite, c.OnWrite
+	c.mu.Unlock()
+	if hook != nil {
+		hook(n)
+	}
+	c.mu.Lock()
+	defer c.mu.Unlock()
+	c.nWrite = max(c.nWrite, n)
+	if c.FailWrite[n] {
 		return errors.New("cache write failed (injected)")
 	}
 	cp := append([]byte{}, b...)
